@@ -1,4 +1,4 @@
-(* C02 classifier.  0 Agree | 1 ModelMismatch | 2 PropertyFail | 100 Known C02-K1.
+(* C02 classifier.  0 Agree | 1 ModelMismatch | 2 PropertyFail | 100 Known C02-K1 | 9 harness.
    On an accepted ledger the assertions are re-checked against running sums of the amounts
    the IMPLEMENTATION stored (file order), independently of the model's book-keeping. *)
 From Coq Require Import List NArith ZArith Bool QArith Qcanon.
@@ -6,8 +6,33 @@ From Okv Require Import Base.Maps Base.Dec Model.Amount Model.Book Run.LedgerCas
 From Okv Require Model.BookSpecB.
 Import ListNotations.
 
-Record case := { c_entries : list entry; c_obs : lobs }.
-Definition C (es : list entry) (o : lobs) : case := {| c_entries := es; c_obs := o |}.
+(* What the rendered error says (harness/src/diag.rs reads `Display` of the error back into
+   positions of the ledger text).  DSeen: the entry the source excerpt starts at; the posting
+   whose `= X` begins at the `--> file:line:col` location; the posting whose account name
+   carries the "computed balance: .." marker; the posting whose `= X` carries the "not match
+   the computed balance" marker (99 = the place is not exactly that part of any posting of the
+   entry); the computed balance and the difference of the title line; the computed balance of
+   the label.  DNone: not looked at (no failed assertion).  DWide: an excerpt line exceeds the
+   renderer's terminal width and is cut - not read.  DPanic: rendering panicked.
+   DUnreadable: the excerpt is not the ledger's text. *)
+Inductive diag :=
+| DNone | DPanic | DUnreadable | DWide
+| DSeen (excerpt_entry loc_posting label_posting mark_posting : nat)
+        (title_computed title_diff label_computed : amount).
+
+Record case := { c_entries : list entry; c_obs : lobs; c_diag : diag }.
+Definition C (es : list entry) (o : lobs) : case := {| c_entries := es; c_obs := o; c_diag := DNone |}.
+Definition CD (es : list entry) (o : lobs) (d : diag) : case := {| c_entries := es; c_obs := o; c_diag := d |}.
+
+(* the rendered error points at posting p of entry k and reports that balance *)
+Definition diag_points (d : diag) (k p : nat) (computed diff : amount) : bool :=
+  match d with
+  | DSeen e l a m tc td lc =>
+      Nat.eqb e k && Nat.eqb l p && Nat.eqb a p && Nat.eqb m p
+      && amount_eqb tc computed && amount_eqb td diff && amount_eqb lc computed
+  | DNone | DWide => true
+  | DPanic | DUnreadable => false
+  end.
 
 Definition txns_of (es : list entry) : list txn :=
   flat_map (fun e => match e with ETxn t => [t] | _ => [] end) es.
@@ -79,7 +104,14 @@ Definition classify (c : case) : N :=
            | _ => 1%N
            end
   | LErr k x =>
-      if agree then 0%N
+      if agree then
+        match m, c_diag c with
+        | _, DUnreadable => 9%N
+        | (Err (BalanceAssertionFailure p computed diff), k'), d =>
+            if diag_points d k' p computed diff then 0%N
+            else 2%N           (* rejected, but the printed error points elsewhere or reports another balance *)
+        | _, _ => 0%N
+        end
       else match m with
            | (Err e, k') =>
                if obs_assertion x || model_assertion e
